@@ -32,6 +32,14 @@ def C(**k):
     return pipe_run.norm_cfg(k)
 
 
+def par(tasks, n=4):
+    """Runs the callables concurrently (independent TLC runs) and returns their results in order."""
+    from concurrent.futures import ThreadPoolExecutor
+    with ThreadPoolExecutor(n) as ex:
+        futs = [ex.submit(t) for t in tasks]
+        return [f.result() for f in futs]
+
+
 def inputs_upto(n):
     return [list(range(1, k + 1)) for k in range(0, n + 1)]
 
@@ -125,50 +133,76 @@ def stage_cfgs(pid, tier, rng):
     return mc, gen, rnd
 
 
-# ------------------------------------------------------------------------------------------------ TLC: MC and GEN on Stage
-def stage_mc(run, pid, cfgs, d, timeout=1500):
+# ------------------------------------------------------------------------------------------------ TLC: MC and GEN on the I models
+MC_TEMPLATE = """---- MODULE %(mod)sMC ----
+(* generated by lib/fam_pipe.py: exhaustive model / schedule generator of %(mod)s over the configurations of CFG_FILE *)
+EXTENDS %(mod)s, Json, IOUtils
+MCIn == JsonDeserialize(IOEnv.CFG_FILE)
+Norm(c) == [c EXCEPT !.fail = P!Range(c.fail), !.pred = P!Range(c.pred)]
+MCCfgs == {Norm(MCIn.cfgs[i]) : i \\in DOMAIN MCIn.cfgs}
+MCQStep == MCIn.qstep
+MCMaxT == MCIn.maxt
+MCMaxCalls == MCIn.maxcalls
+SchedBound == Len(sched) <= MCIn.maxsched
+GenEmit == (~ENABLED Lib) => PrintT(ToJson([t |-> "sched", cfg |-> cfg.id, cmds |-> sched]))
+====
+"""
+MODEL_CONST = {"Gen": " MaxT <- MCMaxT\n MaxCalls <- MCMaxCalls\nCONSTRAINT Bounded\n", "Throttle": " MaxT <- MCMaxT\n"}
+MODEL_INV = {
+    "Stage": STAGE_INV,
+    "Gen": {"GenExact": "GenExactInv", "EmitPaced": "EmitPacedInv", "EmitKeepUp": "EmitKeepUpInv", "GenSettle": "GenSettleInv", "Settle2": "Settle2Inv"},
+    "Throttle": {"Prefix": "PrefixInv", "Complete": "CompleteInv", "ThrottleWindow": "ThrottleWindowInv", "ThrottlePaced": "ThrottlePacedInv",
+                 "Settle1": "Settle1Inv", "Settle2": "Settle2Inv"},
+    "JoinStage": {"JoinPerInput": "JoinPerInputInv", "JoinNothingInvented": "JoinNothingInventedInv", "JoinComplete": "JoinCompleteInv",
+                  "Settle1": "Settle1Inv", "Settle2": "Settle2Inv"},
+    "Unbound": {"Prefix": "PrefixInv", "NeverBlocksSender": "NeverBlocksSenderInv", "LosslessAfterCancel": "LosslessAfterCancelInv",
+                "Complete": "CompleteInv", "Settle1": "Settle1Inv", "NewSettle": "NewSettleInv", "NoPanic": "NoPanicInv", "_": "Conservation"},
+}
+
+
+def model_mc(run, module, pid, cfgs, d, timeout=1500, maxt=6, maxcalls=4, qstep=False, view="View", only=None):
     if not cfgs:
         return
-    for i, c in enumerate(cfgs):
-        c["id"] = i
-    f = os.path.join(d, "mc_cfgs.json")
-    json.dump({"cfgs": cfgs, "qstep": False}, open(f, "w"))
-    invs = [STAGE_INV[p] for p in PREDS[pid] if p in STAGE_INV]
-    cfgtxt = "CONSTANTS\n Cfgs <- MCCfgs\n QStep <- MCQStep\nSPECIFICATION Spec\nVIEW View\n" + "".join("INVARIANT %s\n" % i for i in invs) + "CHECK_DEADLOCK FALSE\n"
-    r = run_tlc("StageMC", cfgtxt, env={"CFG_FILE": f}, timeout=timeout)
-    run.add_mc("StageMC", r, {"configurations": len(cfgs), "invariants": invs})
-    log("phase: StageMC %d configurations, %d distinct states, %.1fs" % (len(cfgs), r.distinct, r.wall))
+    cfgs = [dict(c, id=i) for i, c in enumerate(cfgs)]
+    f = os.path.join(d, "mc_%s_%s.json" % (module, view))
+    json.dump({"cfgs": cfgs, "qstep": qstep, "maxt": maxt, "maxcalls": maxcalls, "maxsched": 1000}, open(f, "w"))
+    inv = MODEL_INV[module]
+    invs = [inv[p] for p in PREDS[pid] if p in inv and (only is None or p in only)] + ([inv["_"]] if "_" in inv else [])
+    cfgtxt = "CONSTANTS\n Cfgs <- MCCfgs\n QStep <- MCQStep\n" + MODEL_CONST.get(module, "") + "SPECIFICATION Spec\nVIEW " + view + "\n" + "".join("INVARIANT %s\n" % i for i in invs) + "CHECK_DEADLOCK FALSE\n"
+    r = run_tlc(module + "MC", cfgtxt, files=[(module + "MC.tla", MC_TEMPLATE % {"mod": module})], env={"CFG_FILE": f}, timeout=timeout)
+    run.add_mc(module + "MC", r, {"configurations": len(cfgs), "invariants": invs, "maxt": maxt, "maxcalls": maxcalls, "qstep": qstep, "view": view})
+    log("phase: %sMC %d configurations, %d distinct states, %.1fs (%s, qstep=%s, maxt=%s)" % (module, len(cfgs), r.distinct, r.wall, view, qstep, maxt))
     if r.violated:
         # V2: a counterexample in the model is not a verdict; it must show up on the real code (it will, through GEN/random
         # schedules judged by TRACE-P, if it is real).  Otherwise the model misrepresents the code.
-        run.notes.setdefault("mc_counterexamples", []).append({"model": "StageMC", "invariant": r.violated})
+        run.notes.setdefault("mc_counterexamples", []).append({"model": module + "MC", "invariant": r.violated})
         run.mc_violated = r.violated
-        tail = r.out[r.out.find("Error: Invariant"):][:200]
-        log("MC: model violates %s (to be confirmed on the real code): %s" % (r.violated, tail.replace("\n", " ")))
+        log("MC: model %s violates %s (to be confirmed on the real code)" % (module, r.violated))
 
 
-def stage_gen(run, cfgs, d, rng, limit, want_cancel=None):
+def model_gen(run, module, cfgs, d, rng, limit, want_cancel=None, maxt=5, maxcalls=3, maxsched=1000):
     """Schedules from the quiescent-step restriction of the model: one per distinct quiescent state."""
     if not cfgs:
         return []
-    for i, c in enumerate(cfgs):
-        c["id"] = i
-    f = os.path.join(d, "gen_cfgs.json")
-    json.dump({"cfgs": cfgs, "qstep": True}, open(f, "w"))
-    cfgtxt = "CONSTANTS\n Cfgs <- MCCfgs\n QStep <- MCQStep\nSPECIFICATION Spec\nVIEW View\nINVARIANT GenEmit\nCHECK_DEADLOCK FALSE\n"
-    r = run_tlc("StageMC", cfgtxt, env={"CFG_FILE": f}, timeout=1500, workers=4)
-    run.add_mc("StageMC(QStep,GenEmit)", r, {"configurations": len(cfgs)})
+    cfgs = [dict(c, id=i) for i, c in enumerate(cfgs)]
+    f = os.path.join(d, "gen_%s.json" % module)
+    json.dump({"cfgs": cfgs, "qstep": True, "maxt": maxt, "maxcalls": maxcalls, "maxsched": maxsched}, open(f, "w"))
+    cfgtxt = "CONSTANTS\n Cfgs <- MCCfgs\n QStep <- MCQStep\n" + MODEL_CONST.get(module, "") + "CONSTRAINT SchedBound\nSPECIFICATION Spec\nVIEW View\nINVARIANT GenEmit\nCHECK_DEADLOCK FALSE\n"
+    r = run_tlc(module + "MC", cfgtxt, files=[(module + "MC.tla", MC_TEMPLATE % {"mod": module})], env={"CFG_FILE": f}, timeout=1500, workers=4)
+    run.add_mc(module + "MC(QStep,GenEmit)", r, {"configurations": len(cfgs)})
     js = r.json_prints("sched")
-    log("phase: StageMC(QStep) %d configurations, %d distinct states, %d schedules, %.1fs" % (len(cfgs), r.distinct, len(js), r.wall))
+    log("phase: %sMC(QStep) %d configurations, %d distinct states, %d schedules, %.1fs" % (module, len(cfgs), r.distinct, len(js), r.wall))
     if not js:
-        raise Infra("StageMC printed no schedules")
+        raise Infra(module + "MC printed no schedules")
     out = []
     for j in js:
         cmds = j["cmds"]
         has_cancel = any(c["c"] == "cancel" for c in cmds)
         if want_cancel is not None and has_cancel != want_cancel:
             continue
-        out.append({"cfg": cfgs[j["cfg"]], "cmds": cmds, "origin": "tlc-gen"})
+        c = dict(cfgs[j["cfg"]])
+        c.pop("id", None)
+        out.append({"cfg": c, "cmds": cmds, "origin": "tlc-gen"})
     run.notes["gen_schedules_printed"] = run.notes.get("gen_schedules_printed", 0) + len(js)
     if len(out) > limit:
         # keep the longest ones (they subsume their prefixes window by window) plus a seeded sample of the rest
@@ -176,6 +210,14 @@ def stage_gen(run, cfgs, d, rng, limit, want_cancel=None):
         head, rest = out[: limit // 2], out[limit // 2:]
         out = head + rng.sample(rest, limit - len(head))
     return out
+
+
+def stage_mc(run, pid, cfgs, d, timeout=1500):
+    return model_mc(run, "Stage", pid, cfgs, d, timeout)
+
+
+def stage_gen(run, cfgs, d, rng, limit, want_cancel=None):
+    return model_gen(run, "Stage", cfgs, d, rng, limit, want_cancel)
 
 
 # ------------------------------------------------------------------------------------------------ the check
@@ -189,27 +231,36 @@ def check(run, replay=None):
             return do_replay(run, binp, replay, d)
         scheds = []
         mc, gen, rnd = stage_cfgs(pid, run.tier, rng)
-        # (1) exhaustive model checking of the I model against the P predicates
-        stage_mc(run, pid, [dict(c) for c in mc], d)
-        # (2) schedules: TLC-generated + seeded random, each with the epilogues of the property
         nrand = {"quick": 12, "thorough": 80}[run.tier]
         glimit = {"quick": 1500, "thorough": 12000}[run.tier]
+        grng = random.Random(rng.random())
+        # (1) exhaustive model checking of the I models against the P predicates and (2) schedule generation: independent TLC runs
+        tasks = [lambda: stage_mc(run, pid, [dict(c) for c in mc], d)]
+        want = {"C05": False, "C07": False}.get(pid)
+        tasks.append(lambda: stage_gen(run, [dict(c) for c in gen], d, grng, glimit, want_cancel=want))
+        ucfgs = []
+        if pid == "C08":
+            ucfgs = [C(kind="New", cap=cap, inputs=[list(range(1, (5 if th else 4) - (1 if cap == 3 else 0)))]) for cap in [0, 1, 2, 3]]
+            urng = random.Random(rng.random())
+            tasks.append(lambda: model_mc(run, "Unbound", pid, ucfgs, d))
+            tasks.append(lambda: model_gen(run, "Unbound", ucfgs, d, urng, glimit))
+        ntl = len(tasks)
+        if pid in ("C06", "C07", "C11", "C12", "C13"):
+            tasks += clocked_models(run, pid, th, d, rng)
+        res = par(tasks)
+        g = res[1] or []
         if pid == "C05":
-            g = stage_gen(run, [dict(c) for c in gen], d, rng, glimit, want_cancel=False)
             scheds += [dict(s, epilogue="drain") for s in g]
             scheds += rand_scheds(rnd, rng, nrand, ["drain", "closewait"], weights=dict(send=4, close=1, recv=4, cancel=0, release=4, advance=0))
         elif pid == "C06":
-            g = stage_gen(run, [dict(c) for c in gen], d, rng, glimit)
             for s in g:
                 scheds.append(dict(s, epilogue="cancel"))
             scheds += [dict(s, epilogue="closewait") for s in g if rng.random() < 0.25]
             scheds += rand_scheds(rnd + other_cfgs("C06", th, rng), rng, nrand, ["cancel", "closewait", "drain"])
         elif pid == "C07":
-            g = stage_gen(run, [dict(c) for c in gen], d, rng, glimit, want_cancel=False)
             scheds += [dict(s, epilogue="drain") for s in g]
             scheds += rand_scheds(rnd + other_cfgs("C07", th, rng), rng, nrand, ["drain", "closewait"], weights=dict(send=4, close=1, recv=4, cancel=0, release=4, advance=1))
         elif pid in ("C09", "C10"):
-            g = stage_gen(run, [dict(c) for c in gen], d, rng, glimit)
             for s in g:
                 has_cancel = any(c["c"] == "cancel" for c in s["cmds"])
                 if pid == "C10" and has_cancel:
@@ -217,10 +268,21 @@ def check(run, replay=None):
                 scheds.append(dict(s, epilogue="cancel" if has_cancel else "drain"))
             w = dict(send=4, close=1, recv=4, cancel=(0 if pid == "C10" else 1), release=4, advance=0)
             scheds += rand_scheds(rnd, rng, nrand, ["drain", "closewait"] + (["cancel"] if pid == "C09" else []), weights=w)
+        elif pid == "C08":
+            for s in res[3]:
+                ended = any(c["c"] in ("cancel", "close") for c in s["cmds"])
+                scheds.append(dict(s, epilogue="closewait" if ended else "cancel"))
+                if not ended:
+                    scheds.append(dict(s, epilogue="closewait"))
+            scheds += rand_scheds(other_cfgs(pid, th, rng), rng, nrand * 3, ["cancel", "closewait", "drain"])
+            scheds += special_scheds(pid, th, rng)
         else:
-            scheds += rand_scheds(other_cfgs(pid, th, rng), rng, nrand * 3, {"C08": ["cancel", "closewait", "drain"], "C11": ["cancel", "drain"],
+            scheds += rand_scheds(other_cfgs(pid, th, rng), rng, nrand * 3, {"C11": ["cancel", "drain"],
                                   "C12": ["drain", "closewait", "cancel"], "C13": ["drain", "closewait", "cancel"]}[pid])
             scheds += special_scheds(pid, th, rng)
+        for r in res[ntl:]:
+            if isinstance(r, list):
+                scheds += r
         if not scheds:
             raise Infra("no schedules for " + pid)
         # (3) execute on the real code, (4) judge
@@ -247,6 +309,50 @@ def check(run, replay=None):
         run.exhaustive = True
         run.assumptions += ["statement-level atomicity of goroutine steps between blocking points (Go memory model; the race detector covers C09's data-race clause)",
                             "testing/synctest quiescence = no library step enabled"]
+
+
+def clocked_models(run, pid, th, d, rng):
+    """MC + GEN on the models of the stages outside Stage.tla: Gen (Emit, Unfold), JoinStage, Throttle.
+    Returns (tasks, collect): independent TLC runs and a function turning their results into schedules."""
+    lim = 4000 if th else 500
+    tasks, post = [], []
+    if pid in ("C06", "C07", "C11"):
+        modes = (("pure", []), ("try", [1]), ("lift", [1])) if pid != "C07" else (("try", [0, 2]), ("try", [1]), ("lift", [1]), ("lift", [0]))
+        caps = (0, 1, 2) if th else (0, 1)
+        g = [C(kind="Emit", cap=c, freq=f, mode=m, fail=fl, gate=gt) for c in caps for f in (1, 2) for (m, fl) in modes for gt in ((False, True) if th or pid == "C06" else (False,))]
+        g += [C(kind="Unfold", cap=c, step=st, seed=1, mode=m, fail=fl, gate=gt) for c in caps for st in ("succ", "double", "const")
+              for (m, fl) in ((("pure", []), ("lift", [3]), ("lift", [1])) if pid != "C07" else (("lift", [3]), ("lift", [1]), ("lift", [2]))) for gt in (False, True)]
+        if pid == "C06":
+            g += [C(kind="Emit", cap=1, freq=1, mode="try", fail=[1], stderr=True), C(kind="Unfold", cap=0, step="succ", seed=1, mode="lift", fail=[2], stderr=True)]
+        g3 = [c for c in g if c["cap"] < 2 and not c["gate"]]
+        sub = [c for c in g if c["cap"] < 2 and (c["kind"] == "Emit" or c["step"] != "const")]
+        sub = rng.sample(sub, min(len(sub), 16 if th else 8))
+        r1 = random.Random(rng.random())
+        tasks.append(lambda: model_mc(run, "Gen", pid, g, d, maxt=6 if th else 4, maxcalls=4 if th else 3, qstep=True, view="ViewLite", only=["GenExact", "EmitPaced", "GenSettle"]))
+        tasks.append(lambda: model_mc(run, "Gen", pid, g3 if th else g3[:10], d, maxt=5 if th else 3, maxcalls=3, qstep=True))
+        tasks.append(lambda: [dict(x, epilogue="cancel") for x in model_gen(run, "Gen", sub, d, r1, lim, maxt=4 if th else 3, maxcalls=3 if th else 2, maxsched=10 if th else 8)])
+    if pid in ("C06", "C12"):
+        j = [C(kind="Join", cap=c, inputs=[[100 * (i + 1) + k for k in (1, 2)] for i in range(n)]) for c in (0, 1) for n in (0, 1, 2)]
+        if th:
+            j += [C(kind="Join", cap=c, inputs=[[100 * (i + 1) + 1] for i in range(3)]) for c in (0, 1)]
+        r2 = random.Random(rng.random())
+
+        def jgen():
+            out = []
+            for x in model_gen(run, "JoinStage", j, d, r2, lim * 2):
+                has_cancel = any(c["c"] == "cancel" for c in x["cmds"])
+                out.append(dict(x, epilogue="cancel" if has_cancel or pid == "C06" else "closewait"))
+            return out
+        tasks.append(lambda: model_mc(run, "JoinStage", pid, j, d))
+        tasks.append(jgen)
+    if pid in ("C06", "C13"):
+        t = [C(kind="Throttling", cap=c, ops=o, interval=iv, inputs=[[1, 2, 3, 4]]) for c in (0, 1) for o in (1, 2) for iv in ((2, 3) if th else (2,))]
+        t3 = [dict(c, inputs=[[1, 2, 3]]) for c in t[: (4 if th else 2)]]
+        r3 = random.Random(rng.random())
+        tasks.append(lambda: model_mc(run, "Throttle", pid, t, d, maxt=6 if th else 5, qstep=True, view="ViewLite", only=["Prefix", "Complete", "ThrottleWindow"]))
+        tasks.append(lambda: model_mc(run, "Throttle", pid, t3, d, maxt=5 if th else 4, qstep=True))
+        tasks.append(lambda: [dict(x, epilogue="cancel" if pid == "C06" else "drain") for x in model_gen(run, "Throttle", t3[:2], d, r3, lim, maxt=4, maxsched=12 if th else 10)])
+    return tasks
 
 
 def cmd_str(c):
